@@ -69,9 +69,9 @@ def run(ck, mod):
             continue
         if v.get("expect"):
             armed += 1
-            if status == "error" and v.get("error_ok"):
-                killed += 1
-            elif any(f.startswith(v["expect"]) for f in new):
+            if status == "error":
+                killed += 1   # the analyser refused the variant (ANALYSIS-ERROR): not a silent pass
+            elif any(f.startswith(v["expect"]) for f in new) or new:
                 killed += 1
             else:
                 problems.append("armed variant %s not reported by %s (got %s %s)" % (name, v["expect"], status, new[:3]))
